@@ -6,6 +6,7 @@ import (
 	"fmt"
 	"go/ast"
 	"go/types"
+	"os"
 	"sort"
 	"strings"
 
@@ -281,6 +282,21 @@ func instantiate(c *Ctx, root *ssa.Function, pred func(ir.Effect) bool, sel func
 
 // isAddrOf: e is AccAddressFromBech32(<base>.<field>)#0 for a parameter base.
 func isAddrOf(e *ir.Expr, field string) bool {
+	direct := e != nil && e.Op == "res" && e.Name == "0" && len(e.Args) == 1 && e.Args[0].Op == "call" && strings.HasSuffix(e.Args[0].Name, "types.AccAddressFromBech32")
+	if e != nil && !direct && theWorld != nil {
+		// the address may be decoded by a helper (a pair decoder returning both parties): in canonical form, ignoring the
+		// zero values such a helper hands back when decoding failed
+		x := theWorld.Expand(e, 4)
+		if os.Getenv("MCDEBUG") == "addr" {
+			fmt.Fprintln(os.Stderr, "addr", e.String(), "=>", x.String())
+		}
+		if nz := nonZeroAlts(x); len(nz) == 1 {
+			x = nz[0]
+		}
+		if x != nil && x.Op == "res" && x.Name == "0" {
+			e = x
+		}
+	}
 	if e == nil || e.Op != "res" || e.Name != "0" || len(e.Args) != 1 {
 		return false
 	}
@@ -585,3 +601,9 @@ func altsOf(c *Ctx, f *ssa.Function, idx int, at0 ssa.Instruction, val ssa.Value
 func valueAlts(c *Ctx, f *ssa.Function, at ssa.Instruction, v ssa.Value) []retAlt {
 	return altsOf(c, f, 0, at, v)
 }
+
+// theWorld: the program under analysis (one per process run), for matchers that have no context parameter.
+var theWorld *ir.World
+
+// SetWorld installs the program under analysis for context-free matchers.
+func SetWorld(w *ir.World) { theWorld = w }
